@@ -4,6 +4,8 @@ import (
 	"errors"
 	"fmt"
 	"io"
+	"io/fs"
+	"syscall"
 
 	"verif/simrt"
 	"zombiezen.com/go/commonmark"
@@ -14,6 +16,48 @@ var (
 	errWriteFirst = errors.New("simwriter: injected failure (first)")
 	errWriteLater = errors.New("simwriter: failure on a call made after the first failure")
 )
+
+// writerErrKinds: WHICH error the failing write returns ("" = a private
+// sentinel).  A callee may single errors out by value (io.ErrShortWrite,
+// io.EOF, EPIPE) or by behaviour (Temporary(), Timeout()) and treat them as
+// "progress" or "end of output"; C20 says "that writer's first error" whatever
+// it is.
+var writerErrKinds = []string{"", "", "", "", "short-write", "short-write", "wraps-short-write", "eof", "temporary", "eintr", "eagain", "closed-pipe", "fs-closed", "epipe", "enospc", "noncomparable"}
+
+type wrapsShortWrite struct{}
+
+func (wrapsShortWrite) Error() string { return "simwriter: quota exceeded" }
+func (wrapsShortWrite) Unwrap() error { return io.ErrShortWrite }
+
+func writerFaultErr(kind string) error {
+	switch kind {
+	case "":
+		return errWriteFirst
+	case "short-write":
+		return io.ErrShortWrite
+	case "wraps-short-write":
+		return wrapsShortWrite{}
+	case "eof":
+		return io.EOF
+	case "temporary":
+		return tempErr{}
+	case "eintr":
+		return syscall.EINTR
+	case "eagain":
+		return syscall.EAGAIN
+	case "closed-pipe":
+		return io.ErrClosedPipe
+	case "fs-closed":
+		return fs.ErrClosed
+	case "epipe":
+		return syscall.EPIPE
+	case "enospc":
+		return syscall.ENOSPC
+	case "noncomparable":
+		return errNonComparable
+	}
+	panic("unknown writer error kind " + kind)
+}
 
 // SimWriter accepts writes until the failing call (FailAt) or until the byte
 // budget is crossed ("disk full": the crossing write is partial + error).
@@ -56,7 +100,7 @@ func (w *SimWriter) write(p []byte) (int, error) {
 				w.FullWithErr++
 			}
 			w.Buf = append(w.Buf, p[:n]...)
-			return n, errWriteFirst
+			return n, writerFaultErr(w.scn.Err)
 		}
 		if w.scn.ByteBudget >= 0 && len(w.Buf)+len(p) > w.scn.ByteBudget {
 			w.Failed = true
@@ -65,7 +109,7 @@ func (w *SimWriter) write(p []byte) (int, error) {
 				n = 0
 			}
 			w.Buf = append(w.Buf, p[:n]...)
-			return n, errWriteFirst
+			return n, writerFaultErr(w.scn.Err)
 		}
 	}
 	w.Buf = append(w.Buf, p...)
